@@ -328,6 +328,28 @@ def gen_document(ints, key_pool=None, string_keys=None, value_extra=None, max_it
     return items
 
 
+def large_document(n, dup_every=0, string_every=50, fields_per_entry=2, ref=None):
+    """A derivation with n entries (unique keys unless dup_every > 0), a @string / comment every `string_every`
+    entries - for size boundaries (caches, chunking, recursion) that small documents cannot reach."""
+    items = [{"k": "gap", "ws": ""}]
+    for i in range(n):
+        if string_every and i % string_every == 0:
+            items.append({"k": "string", "kw": "string", "hws": "", "ws1": "", "key": "s%d" % i, "ws2": " ", "ws3": " ", "value": '"S%d"' % i, "ws4": ""})
+            items.append({"k": "gap", "ws": "\n"})
+            items.append({"k": "comment", "kw": "comment", "hws": "", "body": "c%d" % i})
+            items.append({"k": "gap", "ws": "\n"})
+        key = "k%d" % (i if not dup_every or i % dup_every else 0)
+        fields = []
+        for j in range(fields_per_entry):
+            v = "{value %d.%d {nested}}" % (i, j) if j % 2 == 0 else '"v%d" # %s' % (i, ref or "x")
+            if ref is not None and j == 1 and i % 3 == 0:
+                v = ref
+            fields.append({"wa": "\n  ", "key": "f%d" % j, "wb": " ", "wc": " ", "value": v, "wd": ""})
+        items.append({"k": "entry", "type": "article", "hws": "", "ws1": "", "key": key, "ws2": "", "fields": fields, "comma": i % 2 == 0, "ws_end": "\n"})
+        items.append({"k": "gap", "ws": "\n\n" if i % 7 else "\n% free text %d\n" % i if False else "\n\n"})
+    return items
+
+
 def strategies(max_ints=400, **opts):
     """Hypothesis strategy for derivations: a list of small ints decoded by gen_document (cheap to
     generate, shrinks towards fewer items / simpler choices)."""
